@@ -302,6 +302,8 @@ class Gen:
         self.fn_keys_with_body = set()
         self.assume = set()          # function keys whose contract is assumed (outside the rules / rejected by Verus)
         self.assume_reasons = {}
+        self._auto_inline_tried = set()
+        self._known_fn_names = None
         self.inline = {}             # function key -> names of same-file helpers without contract to inline (rule R12)
         self.macros = {}
         self.statics = set(self.specs.STATICS)
@@ -331,9 +333,40 @@ class Gen:
         except Exception as e:   # Unsupported / LexError, or a rule tripping over a shape it was not written for
             if item.body is None:
                 raise
+            if isinstance(e, Unsupported) and "lost anchor" in str(e) and key not in self._auto_inline_tried:
+                # what a contract or a proof hint refers to (a local, a statement) is no longer in this function's text: if the
+                # function now calls same-file helpers that have no contract, the text may simply have moved there (rule R12)
+                self._auto_inline_tried.add(key)
+                cands = self._uncontracted_callees(file, item)
+                if cands:
+                    prev = set(self.inline.get(key, ()))
+                    self.inline[key] = prev | cands
+                    try:
+                        return self._fn_text_full(file, item, key, lifted_name, self_ty)
+                    except Exception as e2:
+                        self.inline[key] = prev
+                        e = e2
             self.assume.add(key)
             self.assume_reasons[key] = "extraction: %s%s" % ("" if isinstance(e, (Unsupported, LexError)) else "rule failed on this shape: %s: " % type(e).__name__, e)
             return self._fn_text_full(file, item, key, lifted_name, self_ty, assumed=True)
+
+    def _uncontracted_callees(self, file, item):
+        """same-file fns (with a body) that this function calls and for which neither a contract (SPECS) nor a shim / glue /
+        vocabulary definition exists"""
+        from . import inline as I
+        if self._known_fn_names is None:
+            known = set(k.split("::")[-1] for k in self.specs.SPECS)
+            for f in ("shim/prelude.rs", "contracts/glue.rs", "contracts/vocab.rs"):
+                known |= set(re.findall(r"\bfn\s+(\w+)", open(os.path.join(self.verif, f)).read()))
+            self._known_fn_names = known
+        fns = I.file_fns(self.src.items[file])
+        c = Code(item.body or "")
+        out = set()
+        for k in range(len(c)):
+            if c.kind(k) == "id" and c.t(k) in fns and c.t(k) != item.name and c.t(k) not in self._known_fn_names \
+                    and (c.t(k + 1) == "(" or (c.t(k + 1) == "::" and c.t(k + 2) == "<")) and c.t(k - 1) != "fn":
+                out.add(c.t(k))
+        return out
 
     def _fn_text_full(self, file, item, key, lifted_name=None, self_ty=None, assumed=False):
         spec = self.specs.SPECS.get(key, {})
@@ -388,6 +421,7 @@ class Gen:
         ap("R8-cast", R.rule_dyn_cast)
         ap("R8-filter", R.rule_option_filter)
         ap("R8-map", R.rule_option_map)
+        ap("R8-closures", R.rule_no_opaque_closures)
         # framework code must not panic, except where the contract says so (capacity 0 in spawn, the deliberate deadlock panic)
         ap("R8-panic", R.rule_panics, bool(spec.get("no_panic")), spec.get("panics", "forbid"))
         ap("R4-val", await_values)
@@ -581,6 +615,13 @@ class Gen:
                     continue
                 if ch.name in skip:
                     continue
+                if names is None and impl.kind == "impl" and ch.body is not None and ("%s::%s" % (key_prefix, ch.name)) not in self.specs.SPECS:
+                    from .passes import impl_parts as _ip
+                    if _ip(impl.header_raw)["trait"] is None:
+                        # an inherent method for which no contract exists (a helper added by a refactoring): it is NOT emitted as a
+                        # callable function without contract - a caller could then prove nothing about its result and a correct
+                        # caller's obligation would fail.  Callers get it inlined on demand (rule R12) or fall back to assumed.
+                        continue
                 if ch.name in lift:
                     if ch.body is not None:
                         fname, self_ty = lift[ch.name]
